@@ -180,6 +180,9 @@ func TestCheck(t *testing.T) {
 			i = 1
 		}
 		want[i][c.base] = true
+		if strings.HasPrefix(c.base, "head8") && !strings.HasSuffix(c.base, "-nosnap") {
+			want[i][c.base+"-nosnap"] = true // failed-commit sweep: the same head without a snapshot on disk
+		}
 	}
 	var bases [2][]*base
 	ev.Par(2, 2, func(i int) {
@@ -223,9 +226,15 @@ func TestCheck(t *testing.T) {
 	wg.Wait()
 	var fcCases atomic.Int64
 	done := map[*base]bool{}
+	var sweepBases []*base
 	for _, c := range cfgs {
-		b := find(c)
-		if done[b] || b.name == "empty" {
+		sweepBases = append(sweepBases, find(c))
+		if strings.HasPrefix(c.base, "head8") && !strings.HasSuffix(c.base, "-nosnap") {
+			sweepBases = append(sweepBases, find(searchCfg{c.base + "-nosnap", c.newState, c.depth}))
+		}
+	}
+	for _, b := range sweepBases {
+		if b == nil || done[b] || b.name == "empty" {
 			continue
 		}
 		done[b] = true
@@ -271,7 +280,8 @@ func TestCheck(t *testing.T) {
 		"state = KV image + reflective dump of running filter and LRU; in every state that is distinct for queries (image without the snapshot key + the two index objects): "+
 		"%d filters x all ranges over endpoints {0,8191,8192,head-2..head+1} x chunk %v x scan limit %v (on ranges > %d blocks a fully wildcard filter is only run pattern-less, unlimited, chunk 100 and chunk 1) "+
 		"in every state of depth <= %d additionally 3 pre-confirmed chains (1-2 blocks) above the head x all filters x ranges reaching above the head incl. the pre_confirmed tag at either end; "+
-		"failed-commit sweep: every base x {store:X, store:Y, revert} x k-th commit fails -> same node answers the grid, retry succeeds and answers the grid, "+
+		"failed-commit sweep: every base (window-boundary bases also without a snapshot on disk) x {store:X, store:Y, revert} x k-th commit fails -> same node answers the grid; "+
+		"a new node on that image (= crash before commit k) answers the grid and performs the op; retry on the same node succeeds and answers the grid, "+
 		"then every continuation of <= 2 further ops followed by an ungraceful restart answers the grid; "+
 		"paged to the end (tokens round-tripped through their string form, must advance) and compared event by event with the naive scan of the reference receipts",
 		opList(alphabet), len(h.filters), chunkSizes, scanLimits, longRange, pcDepth))
